@@ -268,6 +268,9 @@ def leaf_basis(reduced=False):
         RAW('a|b'), RAW('(?:ab)+'), RAW('[ab]c'),
         OPN('cat', OPN('cap', OPN('cat', L('a'), FROM('(', 'x'))), OPN('cap', OPN('cat', L('b'), FROM(')', 'y')))),
         OPN('cat', OPN('grp', FROM('(')), OPN('grp', FROM(')'))), BTW('(', '\\'), FROM('(', '\\'), OPN('cat', L('a\\'), FROM('^', 'x', ')', neg=True)),
+        # classes that hold a line feed next to an unbalanced parenthesis / a bar (the class-simplifying step must see them as classes)
+        FROM(')', '\n'), OPN('alt', FROM('\n', '('), FROM('\n', ')')), OPN('cat', OPN('cap', OPN('cat', L('a'), FROM('\n', '('))), L('x'), OPN('cap', OPN('cat', L('b'), FROM('\n', ')')))),
+        FROM('|', '\n'), OPN('cat', FROM('\n', '|'), L('b')),
     ]
     if reduced:
         keep = [0, 1, 3, 5, 6, 9, 11, 12, 15, 17, 24, 25, 29, 30, 31, 37, 40, 43, 46, 48, 50, 54, 55, 56, 57, 60,
@@ -653,6 +656,7 @@ def quant_operands():
             OPN('cat', OPN('grp', FROM('(')), OPN('grp', FROM(')'))), OPN('cap', BTW('(', '\\')), OPN('star', L('a')), OPN('star', CLS('Any')),
             OPN('plus', L('a')), OPN('star', OPN('cap', OPN('alt', L('a'), L('b')))), L('\\\\'),
             L('e\u0301'), L('\u1100\u1161'), L('=\u0338'), L('\U0001F600'), PL('o\u0308'),
+            OPN('alt', FROM('\n', '('), FROM('\n', ')')), OPN('cat', OPN('cap', OPN('cat', L('a'), FROM('\n', '('))), L('x'), OPN('cap', OPN('cat', L('b'), FROM('\n', ')')))),
             ]
 
 
